@@ -227,6 +227,51 @@ theorem history_entry_boundary (a : Nat) :
     | true => have := (visit_failed_iff _ _).mp hf; rw [gen_max_history] at this; omega
   · exact (visit_failed_iff _ _).mpr (by rw [gen_max_history]; omega)
 
+/-! ### the same with re-entries that log no `…StateEntered` (retries, Map batches) -/
+
+/-- **history_bounded_passes**: a run made of first entries (`e = 1`) and re-entries (`e = 0`: a
+retried state, a Map state re-entered for its next batch), each appending at most K events after
+the check, never records more than 25000 + K events while it is running and never more than
+25000 + K + 2 at all — the check is made on *every* pass, also on the ones that log no entry. -/
+theorem history_bounded_passes (K h : Nat) (ps : List (Nat × Nat))
+    (hK : ∀ p ∈ ps, p.1 ≤ 1 ∧ p.2 ≤ K) (hh : h ≤ 25000 + K) :
+    ((runPasses h ps).failed = false → (runPasses h ps).len ≤ 25000 + K) ∧
+    (runPasses h ps).len ≤ 25000 + K + 2 := by
+  have := runPasses_bound K ps h hK (by rw [gen_max_history]; exact hh)
+  rw [gen_max_history] at this
+  exact ⟨this.1, by have := this.2; simp [closingEvents] at this; omega⟩
+
+/-- **retry_loop_is_failed**: a run cannot go on for ever by retrying — when every pass records at
+least one event (a first entry logs `…StateEntered`, a retried Task logs its scheduling), a run of
+more than 25001 passes past `h` recorded events has been failed; and a failed run did exceed the
+limit. -/
+theorem retry_loop_is_failed (h : Nat) (ps : List (Nat × Nat)) (hpos : ∀ p ∈ ps, 1 ≤ p.1 + p.2) :
+    (25000 < h + (ps.length - 1) → ps ≠ [] → (runPasses h ps).failed = true) ∧
+    ((runPasses h ps).failed = true → 25000 < (runPasses h ps).len) := by
+  constructor
+  · intro hlen hne
+    cases hf : (runPasses h ps).failed with
+    | true => rfl
+    | false =>
+      have := runPasses_running ps h hpos hne hf
+      rw [gen_max_history] at this
+      omega
+  · intro hf
+    have := runPasses_failed_over ps h hf
+    rw [gen_max_history] at this
+    exact this
+
+/-- first entries only: the two formulations agree -/
+theorem passes_generalise_visits (h : Nat) (adds : List Nat) :
+    runHistory h adds = runPasses h (adds.map (fun a => (1, a))) :=
+  runHistory_eq_runPasses adds h
+
+-- non-vacuity: a state entered once and then retried (re-entries log nothing, each attempt 3 events)
+example : (∀ p ∈ [(1, 3), (0, 3), (0, 3), (0, 3)], p.1 ≤ 1 ∧ p.2 ≤ 3) ∧ 24994 ≤ 25000 + 3 ∧
+    (∀ p ∈ [(1, 3), (0, 3), (0, 3), (0, 3)], 1 ≤ p.1 + p.2) ∧
+    (runPasses 24994 [(1, 3), (0, 3), (0, 3), (0, 3)]).failed = true ∧
+    (runPasses 24994 [(1, 3), (0, 3), (0, 3), (0, 3)]).len = 25002 := by decide
+
 /-! ### the recorded deviation (open finding C16-F1) breaks the property — the negation, proved -/
 
 /-- with the switch on, a terminal state's output of 262145 characters is accepted although the
